@@ -80,7 +80,8 @@ optag = Function('optag', Node, I)           # Comparator.operation as a tag
 # ------------------------------------------------------------------ spec functions (ghost)
 Den = Function('Den', Node, Env, B)          # truth of a node under an environment
 ValOf = Function('ValOf', Node, Env, Val)    # value of a node under an environment
-WD = Function('WD', Node, Env, B)            # environment is within the domains for the node's variables
+WD = Function('WD', Node, Env, B)            # environment is a well-formed total valuation of the node's subtree
+truth_node = Function('truth_node', Node, B) # node filters by its own truth whatever its position (descriptors, quantifiers, operators)
 indom = Function('indom', Node, HV, B)       # hv is an element of Dom(x)
 _G0 = Function('G0', Node, ArrIB, ArrIH, B)  # GoodRow on the restriction of a row to the node's subtree
 
